@@ -47,6 +47,18 @@ CHECKS.update({
     "C17": dict(technique="TLA+ spec LockPage.tla (litestream's page loops with the lock page as a constant, all small inputs) + REAL > 1 GiB databases replicated, compacted, snapshotted and restored (cmd/bigdb); TLC judge LockObs.tla on the decoded files and page-by-page restore comparison",
         design="7/C17", note="Quick tier: page size 65536, growth across the boundary in one sync; thorough: eight page sizes x {cross, step across, below}. tmpfs scratch. " + TB,
         text="LockPage.tla checks that no file produced by the snapshot / incremental+growth-fill / compaction loops contains the lock page and that decode restores every other page, for every small (size, size, WAL page set); the binding needs real files because the lock page number is fixed by the page size: real databases are driven across the 1 GiB boundary and the TLA+ judge requires every operation to succeed, no file to contain the lock page, full files to be complete, and the restore to equal the source on every other page with the lock page empty."),
+    "C08": dict(technique="TLA+ spec RestorePlan.tla (transcription of CalcRestorePlan + declarative ValidPlan/Reachable/gap reporting): TLC enumerates all small file sets; the same sets + seeded larger ones run through the real CalcRestorePlan (in-memory client); TLC judge RestorePlanObs.tla",
+        design="7/C08", note="TXIDs 1..N at levels {0,1,2,9}, a few distinct timestamps, every target; in-memory ReplicaClient (only listings matter). " + TB,
+        text="The transcription is checked against the declarative spec (starts at 1, contiguous, ends at the target, nothing created at/after the timestamp, found whenever a chain exists, gap reported for latest-state requests) on every small file set; the real planner is run on the same enumeration (count cross-checked with TLC) plus seeded larger inputs and judged in TLA+ against the declarative spec (verdict) and the transcription (binding)."),
+    "C15": dict(technique="TLA+ spec RestorePlan.tla timestamp clauses (TLC exhaustive) + real replicas from real histories restored with the real Replica.Restore at timestamps at/around every recorded replication time; TLC judge TsRestoreObs.tla",
+        design="7/C15", note="File replica (CreatedAt = mtime set from the LTX header time); histories with and without compaction/snapshots. " + TB,
+        text="Plans never contain a file created at/after T and are monotone in T (model, all small file sets); on real replicas every T in {each replication time, +-1 ms, midpoints, before first, after last} is restored and the TLA+ judge requires the state of one TXID replicated before T, never a later one, monotone in T, precise while all level-0 files exist, and an error before the first backup."),
+    "C09": dict(technique="TLA+ spec WalReader.tla (abstract WALs: header class x frame descriptors; transcription of wal_reader.go vs declarative Recovered): TLC enumerates all small WALs; real SQLite WAL bytes mutated (truncation, flips, duplication/reordering, stale tails, salt/commit edits, byte order, recomputed checksums) and read by the real WALReader and by real SQLite recovery; TLC judge WalReaderObs.tla",
+        design="7/C09", note="The checksum arithmetic is not modelled: saltOK/chainOK are abstract bits whose byte meaning is fixed by the materialiser and checked by the SQLite oracle (DESIGN 10). " + TB,
+        text="PageMap(w) = Recovered(w) and chunked reading composes, for every abstract WAL up to the bound; on real bytes litestream's WALReader (incl. chunked pageMap via the verif export) must equal what SQLite itself recovers from the same bytes, and my decoder's descriptor must predict both (binding)."),
+    "C10": dict(technique="TLA+ spec Restore.tla (resumable reader state machine under read faults; restore output protocol under file corruption): TLC exhaustive; real replicas corrupted (delete/truncate/flip at offsets) and read-faulted through a wrapping client, restored by the real Replica.Restore in child processes; TLC judge RestoreObs.tla",
+        design="7/C10", note="Quick tier: every 64th offset + structural boundaries, read faults per offset class (each injected fault costs >= 250 ms of production back-off). " + TB,
+        text="delivered is always a prefix of the file and the outcome is error or the whole file (reader model); outcome is error with no output or success with the original (protocol model); on the real code every corruption / read-fault case must end in an error with no file at the output path (pre-existing output untouched) or in the reference database, and a crash is not an error report."),
     "C19": dict(technique="TLA+ spec RestoreV3.tla/RestoreV3Plan.tla (transcription of the 0.3.x restore planning + declarative statement): TLC enumerates all small layouts; same layouts materialised as real lz4 snapshot/WAL-segment files from real SQLite histories and restored by the real code; TLC judge RestoreV3Obs.tla",
         design="7/C19", note="Layouts <= 2 generations, <= 2 snapshots, <= 3 indices, <= 3 segments per index, one segment removed, all timestamps; file replica client. " + TB,
         text="The transcription of findBestSnapshotV3 / filterWALSegmentsV3 / the contiguity walk / format arbitration is checked against the declarative statement on every small layout; each layout is built physically from a real history and restored with the real Replica.Restore; the TLA+ judge requires the real outcome to satisfy the declarative statement (verdict) and to equal the transcription (binding)."),
